@@ -96,7 +96,11 @@ func c10History(t *testing.T, idx int, seed uint64) {
 				ops = append(ops, fmt.Sprintf("%s CONNECT clean=%v", id, clean))
 				// the CONNECT packets of one client differ in length from connection to connection (credentials
 				// of 0..250 bytes come and go), as a client's may
-				co := connectOpts{ClientID: id, Clean: clean, KeepAlive: 600}
+				// every fifth connection speaks MQTT 3.1 (protocol level 3)
+				co := connectOpts{ClientID: id, Clean: clean, KeepAlive: 600, Level3: r.Intn(5) == 0}
+				if co.Level3 {
+					out.Count("c10.connects_level3", 1)
+				}
 				if r.Intn(3) > 0 {
 					co.User, co.Pass = "user-"+strings.Repeat("x", r.Intn(120)), "p"+strings.Repeat("y", r.Intn(120))
 				}
